@@ -14,6 +14,7 @@ mod simsource;
 #[path = "../../common/workload.rs"]
 mod workload;
 
+mod bystander;
 mod c10;
 mod c11;
 mod c12;
@@ -103,6 +104,10 @@ struct ReplayFile {
     /// a `log` logger that formats every record was installed in the process that found this
     #[serde(default)]
     logger: bool,
+    /// bystander threads (other threads of the process parked in the middle of a write / an encode, see
+    /// `bystander.rs`) were present in the process that found this
+    #[serde(default)]
+    bystanders: bool,
 }
 
 fn harness_error(msg: &str) -> ! {
@@ -183,6 +188,13 @@ fn cmd_run(args: &[String]) {
     if with_logger {
         logger::install();
     }
+    let with_bystanders = (ctx.child / 2) % 2 == 1;
+    if with_bystanders {
+        let parked = bystander::park_all();
+        if parked.len() < 4 {
+            eprintln!("NOTE: only {} of 4 bystander threads parked: {parked:?}", parked.len());
+        }
+    }
     let t0 = std::time::Instant::now();
     let (sum, viols) = run_prop(&ctx);
     let wall = t0.elapsed().as_secs_f64();
@@ -239,6 +251,7 @@ fn cmd_run(args: &[String]) {
             minimised: false,
             notes: vec![],
             logger: with_logger,
+            bystanders: with_bystanders,
         };
         let path = replay_out.replace("{i}", &format!("c{}", ctx.child)).replace("{s}", &n.to_string());
         if let Some(dir) = std::path::Path::new(&path).parent() {
@@ -264,6 +277,9 @@ fn cmd_exec(args: &[String]) {
     let want_min = args.iter().any(|a| a == "--minimise");
     if rf.logger {
         logger::install();
+    }
+    if rf.bystanders {
+        let _ = bystander::park_all();
     }
     let res = exec_prop(&rf.property, &rf.case).unwrap_or_else(|e| harness_error(&e));
     let Some(mut viol) = res else {
